@@ -47,6 +47,11 @@ struct flow_driver
               { fs::single_flow_router(),
                 fs::mst_sink_resolver(fs::mst_method::boruvka, fs::mst_route_method::carve) });
 
+        // move assignment of the operator sequence (only instantiated when used)
+        fs::flow_operator_sequence<impl_type> s1(fs::single_flow_router{});
+        fs::flow_operator_sequence<impl_type> s2(fs::pflood_sink_resolver{}, fs::single_flow_router{});
+        s1 = std::move(s2);
+
         const data_array_type& r = g5.update_routes(elevation);
         (void) r;
         g1.update_routes(elevation);
